@@ -3,7 +3,7 @@ import ast
 
 from .. import ordtype as O
 from ..loader import AnalysisError, norm_stmt
-from ..small import arms, find_ifs, ifexp_arms
+from ..small import arms, exclusive, find_ifs, ifexp_arms
 
 FIT = "covmodel/fit.py"
 
@@ -182,7 +182,7 @@ def closure_vs_post(ctx, rule="R10.3"):
     fv = prog.func(FIT, "fit_variogram")
     vs_f = [n for n in fv.body if isinstance(n, ast.Assign) and ast.unparse(n.targets[0]) == "var_save"]
     pre = [n for n in fv.body if isinstance(n, ast.Assign) and "_pre_para(" in ast.unparse(n.value)]
-    ok = len(vs_c) == 1 and ast.unparse(vs_c[0].value) == "model.var" and len(vs_f) == 1 and ast.unparse(vs_f[0].value) == "model.var" and pre and vs_f[0].lineno > pre[0].lineno
+    ok = len(vs_c) == 1 and ast.unparse(vs_c[0].value) == "model.var" and len(vs_f) == 1 and ast.unparse(vs_f[0].value) == "model.var" and pre and vs_f[0]._ord > pre[0]._ord
     ctx.check(ok, rule, FIT + "::fit_variogram", "the saved variance is taken after fixed values were applied and before fitting starts", "var-save")
     # the variance is (re)written on EVERY evaluation / post-processing path: its raw value depends on len_scale and the
     # optional arguments (var_factor), which the optimiser moves even when the variance itself is not fitted
@@ -201,9 +201,10 @@ def closure_vs_post(ctx, rule="R10.3"):
                   "model.var is written on every path (guards %s cover all cases)%s" % ([sorted(g) for g in vguards], "" if not uncovered else "; NOT covered: %s" % uncovered[:2]), "var-coverage:" + nm)
     # var is set after every other parameter (var_factor)
     for fn, nm in ((curve, "curve"), (post, "_post_fitting")):
-        vw = [n2.lineno for a2, g2, n2 in writes(fn) if a2 == "var"]
-        ow = [n2.lineno for a2, g2, n2 in writes(fn) if a2 not in ("var",) and not (a2 == "anis")]
-        ctx.check(bool(vw) and bool(ow) and min(vw) > max(ow), rule, FIT + "::" + nm, "the variance is written after len_scale, nugget and the optional arguments (its raw value depends on them through var_factor)", "var-last:" + nm)
+        vw = [n2 for a2, g2, n2 in writes(fn) if a2 == "var"]
+        ow = [n2 for a2, g2, n2 in writes(fn) if a2 not in ("var",) and not (a2 == "anis")]
+        late = all(v._ord > o._ord for v in vw for o in ow if not exclusive(fn, v, o))
+        ctx.check(bool(vw) and bool(ow) and late, rule, FIT + "::" + nm, "the variance is written after len_scale, nugget and the optional arguments (its raw value depends on them through var_factor)", "var-last:" + nm)
 
 
 def result_dict(ctx, rule="R10.4"):
@@ -214,7 +215,7 @@ def result_dict(ctx, rule="R10.4"):
     for st in tail:
         attr = st.targets[0].attr
         v = ast.unparse(st.value)
-        later = [n for n in ast.walk(post) if isinstance(n, ast.Assign) and ast.unparse(n.targets[0]) == "fit_para['%s']" % attr and n.lineno > st.lineno and ast.unparse(n.value) == "model.%s" % attr and set(_guards(post, n)) <= set(_guards(post, st))]
+        later = [n for n in ast.walk(post) if isinstance(n, ast.Assign) and ast.unparse(n.targets[0]) == "fit_para['%s']" % attr and n._ord > st._ord and ast.unparse(n.value) == "model.%s" % attr and set(_guards(post, n)) <= set(_guards(post, st))]
         same_slot = False
         if isinstance(st.value, ast.Name):
             src = [n for n in ast.walk(post) if isinstance(n, ast.Assign) and ast.unparse(n.targets[0]) == st.value.id and ast.unparse(n.value).startswith("popt[")]
@@ -233,7 +234,7 @@ def result_dict(ctx, rule="R10.4"):
     ok = len(gcall) == 1 and [ast.unparse(a) for a in gcall[0].args] == ["model", "para", "constrain_sill", "sill", "anis", "is_dir_vario"] and len(pcall) == 1 and [ast.unparse(a) for a in pcall[0].args] == ["model", "para", "init_guess", "constrain_sill", "sill", "anis"]
     ctx.check(ok, rule, FIT + "::fit_variogram", "packer and residual function receive the same selection, sill and anis settings", "same-settings")
     am = [n for n in fv.body if isinstance(n, ast.AugAssign) and ast.unparse(n.target) == "anis"]
-    ok = len(am) == 1 and norm_stmt(am[0]) == "anis &= is_dir_vario" and am[0].lineno < pcall[0].lineno
+    ok = len(am) == 1 and norm_stmt(am[0]) == "anis &= is_dir_vario" and am[0]._ord < pcall[0]._ord
     ctx.check(ok, rule, FIT + "::fit_variogram", "anisotropy is only fitted for directional variograms (decided before the vector layout is fixed)", "anis-flag")
 
 
